@@ -128,7 +128,29 @@ func backward(kind, e string) (string, bool) {
 	return "", true
 }
 
+// FirstCalls is the menu of the fresh-process call-order check: the four functions on inputs with and
+// without upper-case letters and exclamation marks.
+func FirstCalls() []fw.Call {
+	var out []fw.Call
+	add := func(name string, f func(string) (string, error), in string) {
+		out = append(out, fw.Call{Name: name + "(" + strconv.QuoteToASCII(in) + ")", F: func() string {
+			s, err := f(in)
+			return fmt.Sprintf("%q err=%v", s, err)
+		}})
+	}
+	for _, in := range []string{"github.com/Azure/x", "github.com/!azure/x", "example.com/a"} {
+		add("EscapePath", module.EscapePath, in)
+		add("UnescapePath", module.UnescapePath, in)
+	}
+	for _, in := range []string{"v1.0.0-RC1", "v1.0.0-!r!c1", "v1.0.0"} {
+		add("EscapeVersion", module.EscapeVersion, in)
+		add("UnescapeVersion", module.UnescapeVersion, in)
+	}
+	return out
+}
+
 func Run(r *fw.Run) {
+	defer fw.FirstCallOrders(r, "C11", FirstCalls(), nil)
 	L := r.Pick(8, 9)
 	Ltab := r.Pick(7, 8)
 	r.Bounds["alphabet"] = alphabet
